@@ -26,9 +26,9 @@ def decStr (d : Decimal.Dec) : String := s!"{d.value} {d.scale}"
 def splitRes (s : String) : List String := s.splitOn ":"
 
 /-- **SWITCH**: the model of `Decimal::from_str` that `dec.parse` (the real code) is compared with.
-Unchanged tree: `Decimal.fromStr`.  After `notes/fix-decimal.diff` is applied to /repo:
-`DecimalFixed.fromStr`. -/
-def decFromStr : List Char → Outcome Decimal.Dec := Decimal.fromStr
+Before the repair (`notes/fix-decimal.diff`): `Decimal.fromStr`.  Since the repair was applied to
+/repo: `DecimalFixed.fromStr`. -/
+def decFromStr : List Char → Outcome Decimal.Dec := DecimalFixed.fromStr
 
 def handleDecimal : List String → Option String
   | ["dec.parse", h] =>
